@@ -7,7 +7,8 @@ Units:
            but distinct X) -> the `is`-pattern must survive
   plain    supported python / numpy data: every atom in every container nesting up to depth 2, pairs of dict keys
   fallback objects taking the pickle-protocol (`__reduce__`) fallback of the Hdf5Saver
-  graph    every reference graph with <= 3 container nodes of out-degree <= 2 (sharing, self/mutual references)
+  graph    every reference graph with <= 3 container nodes of out-degree <= 2 (sharing, self/mutual references), the nodes
+           being containers, exportables or objects stored through the `__reduce__` fallback (these also through pickle)
   reflect  classes found by reflection vs classes with an instance in the universe
 The oracle (c17_oracle) compares original and copy observationally, calls the copy's `test_sanity`, demands the
 same `is`-pattern and independence of the copy, and that saving does not modify the original.
@@ -17,7 +18,9 @@ import copy
 import fractions
 import itertools
 import os
+import pickle
 import re
+import types
 import warnings
 
 import numpy as np
@@ -40,7 +43,7 @@ def units(tier, seed, label):
             us += [('share', g, m, k, n, seed, tier) for k in range(n)]
     us += [('plain', k, 8) for k in range(8)] + [('fallback',)]
     nsh = 16 if tier == 'quick' else 64
-    us += [('graph', n, 0, 1, tier) for n in (1, 2)] + [('graph', 3, k, nsh, tier) for k in range(nsh)]
+    us += [('graph', 1, 0, 1, tier)] + [('graph', 2, k, 4, tier) for k in range(4)] + [('graph', 3, k, nsh, tier) for k in range(nsh)]
     return us
 
 
@@ -68,8 +71,8 @@ def _file(obj, ending):
 
 MEDIA = dict(h5=lambda x: _file(x, 'h5'), pkl=lambda x: _file(x, 'pkl'), pklz=lambda x: _file(x, 'pklz'), deepcopy=copy.deepcopy,
              compact=lambda x: _h5mem(x, 'compact', True), blocks=lambda x: _h5mem(x, 'blocks', True), flat=lambda x: _h5mem(x, 'flat', True),
-             root=lambda x: _h5mem(x, 'blocks', False))
-KIND = dict(h5='hdf5', compact='hdf5', blocks='hdf5', flat='hdf5', root='hdf5', pkl='pickle', pklz='pickle', deepcopy='copy')
+             root=lambda x: _h5mem(x, 'blocks', False), pickle=lambda x: pickle.loads(pickle.dumps(x)))
+KIND = dict(h5='hdf5', compact='hdf5', blocks='hdf5', flat='hdf5', root='hdf5', pkl='pickle', pklz='pickle', pickle='pickle', deepcopy='copy')
 
 
 def _slug(msg):
@@ -266,8 +269,9 @@ class WithState:
 class PlainObject:
     """A class without HDF5 interface and without `__getstate__`: `__dict__` is the state."""
 
-    def __init__(self, v):
-        self.v, self.w = v, [v]
+    def __init__(self, v=None):
+        if v is not None:
+            self.v, self.w = v, [v]
 
 
 def atoms():
@@ -389,7 +393,9 @@ def run_fallback(unit):
 
 # ------------------------------------------------------------------ reference graphs
 
-NODE_TYPES = {1: 'LTDGCE', 2: 'LTDGCE', ('quick', 3): 'LTDG', ('thorough', 3): 'LTDGC'}
+# node types: List, Tuple, simple Dict, General dict, Config, hdf5-Exportable; stored via `__reduce__`: simple Namespace, Plain user object
+NODE_TYPES = {1: 'LTDGCENP', 2: 'LTDGCENP', ('quick', 3): 'LTDG', ('thorough', 3): 'LTDGN'}
+ATTR_NODES = 'ENP'  # children are attributes k0, k1
 
 
 def graph_specs(n, tier):
@@ -440,7 +446,7 @@ def build_graph(spec):
     from tenpy.tools.hdf5_io import Hdf5Exportable
     from tenpy.tools.params import Config
     leaf = np.arange(2.0)
-    new = dict(L=list, D=dict, G=dict, C=lambda: Config({}, 'cfg'), E=Hdf5Exportable)
+    new = dict(L=list, D=dict, G=dict, C=lambda: Config({}, 'cfg'), E=Hdf5Exportable, N=types.SimpleNamespace, P=PlainObject)
     nodes = [None if t == 'T' else new[t]() for t, _ in spec]
     get = lambda c: leaf if c == 'A' else nodes[c]  # noqa: E731
     for i in _tuple_order(spec):
@@ -455,17 +461,22 @@ def build_graph(spec):
                 nodes[i][s] = get(c)
             elif t == 'C':
                 nodes[i].options['k%d' % s] = get(c)
-            elif t == 'E':
+            elif t in ATTR_NODES:
                 setattr(nodes[i], 'k%d' % s, get(c))
     return nodes[0]
 
 
-def check_graph(spec):
-    loose = any(t == 'T' and _on_cycle(spec, i) for i, (t, _) in enumerate(spec))
-    out, v = roundtrip(build_graph(spec), 'root', Diff(strict=True, ident='all', loose_tuples=loose), 'reference graph %s' % (spec,), full=False)
-    if v:
+def check_graph(spec, medium='root'):
+    """One graph through HDF5 (`root`) or pickle; in HDF5 a tuple on a cycle may come back as list (documented)."""
+    loose = medium == 'root' and any(t == 'T' and _on_cycle(spec, i) for i, (t, _) in enumerate(spec))
+    diff = Diff(strict=True, ident='all', loose_tuples=loose)
+    out, v = roundtrip(build_graph(spec), medium, diff, 'reference graph %s' % (spec,), full=False)
+    if v:  # key: family of the nodes, shape, medium, and the difference itself (not where in the graph it sits)
+        types_ = {t for t, _ in spec}
+        family = 'reduce-objects' if types_ & set('NP') else 'exportables' if types_ & set('CE') else 'containers'
         shape = 'cyclic' if any(_on_cycle(spec, i) for i in range(len(spec))) else 'acyclic'
-        v['key'] = 'graph:%s:%s:%s' % (''.join(sorted(set(t for t, _ in spec))), shape, v['key'].split(':', 2)[2])
+        what = 'differs:' + _slug_diff(diff.leaf) if diff.leaf else v['key'].split(':', 2)[2]
+        v['key'] = 'graph:%s:%s:%s:%s' % (family, shape, KIND[medium], what)
     return ('tuple-on-cycle:' if loose else '') + out, v
 
 
@@ -473,13 +484,15 @@ def run_graph(unit):
     _, n, k, nsh, tier = unit
     res = _result(states=0, transitions=0, traces=0)
     for spec in itertools.islice(graph_specs(n, tier), k, None, nsh):
-        out, v = check_graph(spec)
         res['states'] += 1
-        res['traces'] += 1
         res['transitions'] += sum(len(kids) for _, kids in spec)
         shared = any(sum(kids.count(c) for _, kids in spec) > 1 for c in list(range(n)) + ['A'])
-        case = dict(kind='graph', spec=[[t, list(kids)] for t, kids in spec])
-        _add(res, 'graph:' + out, v, case, case, nontrivial=shared or any(_on_cycle(spec, j) for j in range(n)))
+        nontrivial = shared or any(_on_cycle(spec, j) for j in range(n))
+        for medium in ('root', 'pickle') if any(t in 'NP' for t, _ in spec) else ('root',):  # reduce-fallback objects: pickle is the reference
+            out, v = check_graph(spec, medium)
+            res['traces'] += 1
+            case = dict(kind='graph', spec=[[t, list(kids)] for t, kids in spec], medium=medium)
+            _add(res, 'graph:%s:%s' % (KIND[medium], out), v, case, case, nontrivial)
     return res
 
 
@@ -506,5 +519,5 @@ def replay(case):
     elif kind == 'fallback':
         out, v = check_fallback(case['label'], dict(fallback_cases())[case['label']])
     else:
-        out, v = check_graph(tuple((t, tuple(kids)) for t, kids in case['spec']))
+        out, v = check_graph(tuple((t, tuple(kids)) for t, kids in case['spec']), case.get('medium', 'root'))
     return dict(evaluations=1, outcomes=[str(out)], violations=[dict(v, case=case)] if v else [])
